@@ -414,8 +414,9 @@ def family_parse_numbers():
                         yield dict(op='parse', input=txt, expect=want, bad=(lambda g, want=want: g[0] != 'OK' or g[2] != want))
                     else:
                         yield dict(op='parse', input=txt, expect='rejected', bad=lambda g: g[0] == 'OK')
-        for bad_unit in ('x', 'D', 'w', 'ms', 'S'):
-            yield dict(op='parse', input='%s 3%s' % (kw, bad_unit), expect='rejected', bad=lambda g: g[0] == 'OK')
+        for bad_unit in ('x', 'D', 'w', 'y', 'ms', 'S', 'M'):
+            for digits in ('3', str(u64max), str(u64max // 7 + 1), str(u64max // 365 + 1)):
+                yield dict(op='parse', input='%s %s%s' % (kw, digits, bad_unit), expect='rejected (never a panic)', bad=lambda g: g[0] in ('OK', 'PANIC'))
     # file types: letter table, order and repeats kept
     for arg, want in (('f', '[File]'), ('d', '[Directory]'), ('l', '[Link]'), ('b', '[Block]'), ('c', '[Character]'), ('p', '[Pipe]'), ('s', '[Socket]'),
                       ('f,d', '[File, Directory]'), ('d,f', '[Directory, File]'), ('s,p,l', '[Socket, Pipe, Link]'), ('f,f', '[File, File]')):
@@ -497,7 +498,8 @@ def family_determinism():
     """the same input compiled many times in one process (every HashMap instance has its own random hash keys)"""
     inputs = ['-name a -o -iname a -o -name b -o -iname b', '( -name *.log -o -ipath *.log ) -fprint found.txt',
               '-name core -o -iname core', '-fprint a -o -fprint b -o -fprint0 a -o -print0 -o -fprint c',
-              '-name x -o -name y -o -name z -o -iname x -o -path x -o -ipath x']
+              '-name x -o -name y -o -name z -o -iname x -o -path x -o -ipath x',
+              '-name a -fprint out -o -name b -fprint ./out', '-fprint a -fprint ./a -fprint a/ -fprint A -fprint a', '-fprint0 out -o -fprint0 ./out -o -fprint out']
     for inp in inputs:
         yield dict(op='compile', input=inp, repeat=40, expect='byte-identical programs and equal tables on every compilation',
                    bad=lambda gs: len(set(tuple(g) for g in gs)) > 1)
@@ -636,7 +638,7 @@ def family_grammar(n=None):
         if r < .2:
             return rnd.choice(cmp32) + ' ' + num()
         if r < .3:
-            return rnd.choice(times) + ' ' + num()
+            return rnd.choice(times) + ' ' + num() + rnd.choice(('', '', '', 's', 'm', 'h', 'd', 'w', 'y', 'x'))
         if r < .42:
             return '-size ' + num() + rnd.choice(('', '', 'c', 'w', 'b', 'k', 'M', 'G', 'T', 'K', 'kb'))
         if r < .55:
@@ -866,6 +868,32 @@ def family_ast_table():
             yield dict(op='ast', input='And(%s, %s)' % (t1, t2), expect='table = %s' % (want or 'none (plain mode)'), bad=bad)
 
 
+def family_ast_wrap():
+    """C09 on directly built trees: a tree that holds an action — also an unusual one (an empty format, a file format, the fid printer,
+    an action under `,` or in a dead branch) — gets no implicit print; a tree without one gets exactly one, at the end"""
+    acts = ['Action(PrintFormatted([]))', 'Action(PrintFormatted([Literal("")]))', 'Action(FilePrintFormatted("f", []))', 'Action(PrintFid)', 'Action(Quit)',
+            'Action(PrintNull)', 'Action(FilePrint(""))', 'Action(Print)']
+    tests = ['Test(True)', 'Test(False)', 'Test(Name("x"))']
+    trees = [(a, True) for a in acts] + [(t, False) for t in tests]
+    for a in acts:
+        for t in tests:
+            trees += [('And(%s, %s)' % (t, a), True), ('Or(%s, %s)' % (a, t), True), ('List(%s, %s)' % (a, t), True), ('Not(%s)' % a, True),
+                      ('And(Test(False), Not(Or(%s, %s)))' % (t, a), True)]
+    for t1 in tests:
+        for t2 in tests:
+            trees += [('And(%s, %s)' % (t1, t2), False), ('Not(Or(%s, %s))' % (t1, t2), False), ('List(%s, Not(Not(%s)))' % (t1, t2), False)]
+    for t, act in trees:
+        def bad(g, act=act):
+            if g[0] != 'OK':
+                return False
+            b = policy_body(g[1])
+            if b is None:
+                return True
+            n = b.count('(print-relative-path)')
+            return n != 0 if act else not (n == 1 and b.endswith(' (print-relative-path))') and b.startswith('(and '))
+        yield dict(op='ast', input=t, expect='no implicit print (the tree holds an action)' if act else 'exactly one implicit print, at the end', bad=bad)
+
+
 def family_refusal():
     atoms = [('-true', {}), ('-name x', {}), ('-print', {}), ('-regex r', {'bad': True}), ('-ls', {'bad': True}), ('nope', {'bad': True}),
              ('-printf "%p"', {}), ('-printf "%Z"', {'bad': True})]
@@ -888,6 +916,12 @@ def family_numbers():
     for n in (0, 1, 7, 4096, 2 ** 32 - 1):
         yield dict(op='compile', input='-threads %d -true' % n, expect='scan call ends with %d))' % n,
                    bad=(lambda g, n=n: g[0] == 'OK' and ('\n        %d))' % n) not in g[1]))
+    # the requested thread count reaches the scan call whatever else the expression holds
+    for n in (0, 1, 2, 8, 2 ** 32 - 1):
+        for rest in ('-quit', '-print -quit', '! -quit', '-name a -o -quit', '-print0', '-fprint f', '-uid 1000 -print -quit', '-true , -quit', '-mmin -5', '-printf x'):
+            for shape in ('-threads %d %s', '%s -threads %d'):
+                inp = shape % ((n, rest) if shape.startswith('-threads') else (rest, n))
+                yield dict(op='compile', input=inp, expect='scan call ends with %d))' % n, bad=(lambda g, n=n: g[0] == 'OK' and ('\n        %d))' % n) not in g[1]))
 
 
 def family_panics():
@@ -1526,8 +1560,9 @@ FAMILY_RULES = [
     (r'\.matcher\.|get_matcher|matcher_name|matcher_ref', (family_matchers, family_hostile, family_long, family_ast_structure)),
     (r'\.(printer|file_port|default_port)\.|get_printer|get_file_printer|printer_name|printer_ref|printf_ref|^C10\.(table|top|routing|terminator_text)|\.definitions$',
      (family_table, family_ast_table, family_long, family_determinism, family_ast_structure)),
+    (r'^C13\.', (family_numbers, family_options)),
     (r'^C12\.', (family_refusal, family_ast_refusal, family_parse_refusal, family_option_nodes)),
-    (r'^C09\.|^C19\.action', (family_wrap, family_wrap_body, family_structure, family_precedence)),
+    (r'^C09\.|^C19\.action', (family_wrap, family_wrap_body, family_structure, family_ast_wrap, family_precedence)),
     (r'^SAFETY\.|^C11\.budget', (family_panics, family_long, family_ast, family_perm, family_grammar)),
     (r'^C08\.|^KANI\.c08', (family_perm,)),
     (r'^C04\.(placeholder|literal|snippet|format)|^C03\.type_list|^C07\.(size|time)|^C08\.', (family_ast_refusal, family_ast_structure)),
